@@ -26,6 +26,7 @@ type c03Case struct {
 	Extra  []string      `json:"extra,omitempty"`
 	PreOps []string      `json:"preOps,omitempty"` // earlier operations on the same node tree (From-Root side only; Markdown has no state)
 	WFail  int           `json:"wFail,omitempty"`  // >0: the writer of both sides fails at write index WFail-1 (text and encoded output)
+	Massive bool         `json:"massive,omitempty"` // WithMassive on both sides (an option both API families accept)
 }
 
 var c03Ops = []string{"text", "json", "yaml", "toml", "walk", "walkiter", "mkdir", "verify"}
@@ -48,6 +49,7 @@ func c03Cases(c c03Case) (root, md ops.Case) {
 	md.Doc = []byte(model.Spell(model.Forest{tree}, model.Plain2))
 	for _, cs := range []*ops.Case{&root, &md} {
 		cs.Opts.Branch = c.Branch
+		cs.Opts.Massive = c.Massive && c.Op != "walkiter"
 		switch c.Op {
 		case "json", "yaml", "toml":
 			cs.Opts.Encode = c.Op
@@ -113,7 +115,12 @@ func c03Check(c c03Case) string {
 	}
 
 	rc, mc := c03Cases(c)
-	rr, mr := ops.DefaultEnv.Run(&rc), ops.DefaultEnv.Run(&mc)
+	var rr, mr *ops.Result
+	if c.Massive {
+		rr, mr = pool("plain").Run(&rc), pool("plain").Run(&mc)
+	} else {
+		rr, mr = ops.DefaultEnv.Run(&rc), ops.DefaultEnv.Run(&mc)
+	}
 	if rr.Infra != "" || mr.Infra != "" {
 		return ""
 	}
@@ -189,7 +196,10 @@ func c03Record(col *collector, c c03Case) {
 	if c.WFail > 0 {
 		cl = append(cl, "failing-writer-on-both-sides")
 	}
-	col.eval(n >= 4 && (repeats > 0 || nonPre), hash64(c.Root, fmt.Sprint(c.Prog, c.Op, c.Alias, c.Branch, c.Exts, c.Strict, c.Drop, c.Extra, c.PreOps, c.WFail)), cl...)
+	if c.Massive {
+		cl = append(cl, "massive-on-both-sides")
+	}
+	col.eval(n >= 4 && (repeats > 0 || nonPre), hash64(c.Root, fmt.Sprint(c.Prog, c.Op, c.Alias, c.Branch, c.Exts, c.Strict, c.Drop, c.Extra, c.PreOps, c.WFail, c.Massive)), cl...)
 	col.sample(func() any { return map[string]any{"root": c.Root, "prog": c.Prog, "op": c.Op, "tree": tree.String()} })
 }
 
@@ -271,7 +281,8 @@ func c03Gen() *rapid.Generator[c03Case] {
 		if rapid.IntRange(0, 2).Draw(t, "withPreOps") == 0 {
 			c.PreOps = rapid.SliceOfN(rapid.SampledFrom(preOpPool), 1, 3).Draw(t, "preOps")
 		}
-		if rapid.IntRange(0, 4).Draw(t, "writerFault") == 0 {
+		c.Massive = rapid.IntRange(0, 5).Draw(t, "massive") == 0
+		if !c.Massive && rapid.IntRange(0, 4).Draw(t, "writerFault") == 0 {
 			c.WFail = 1 + rapid.IntRange(0, tree.Count()).Draw(t, "wFail")
 		}
 		switch op {
